@@ -32,6 +32,9 @@ class Module:
         self.src = src
         self.is_pkg = is_pkg
         self.tree = ast.parse(src, filename=path)
+        from .normalise import normalise_module
+
+        self.normalised = normalise_module(self.tree) if name != "<setup>" else []
         for n in ast.walk(self.tree):
             n._file = relpath
         self.imports: Dict[str, str] = {}  # local name -> 'mod' | 'mod:obj' (unresolved target)
@@ -318,6 +321,21 @@ class Program:
                     return self._resolve_in_module(modname, ".".join(parts[i:]), _depth)
             return "ext:%s%s" % (target, "." + rest if rest else "")
         if head in mod.defs:
+            # a module-level name bound exactly once, at top level, to another name (`_run = trio.from_thread.run`) is
+            # that name: imported modules / functions are not rebound at run time any more than the alias is
+            st = mod.defs[head]
+            if isinstance(st, (ast.Assign, ast.AnnAssign)) and st in mod.tree.body and st.value is not None and dotted(st.value) and dotted(st.value).split(".")[0] != head:
+                key = (mod.name, head)
+                cache = self.__dict__.setdefault("_alias_once", {})
+                if key not in cache:
+                    binds = [n for n in ast.walk(mod.tree) if isinstance(n, ast.Name) and n.id == head and isinstance(n.ctx, (ast.Store, ast.Del))]
+                    rebound = any(isinstance(n, (ast.Global, ast.Nonlocal)) and head in n.names for n in ast.walk(mod.tree))
+                    single = isinstance(st, ast.AnnAssign) or (len(st.targets) == 1 and isinstance(st.targets[0], ast.Name))
+                    cache[key] = len(binds) == 1 and not rebound and single
+                if cache[key]:
+                    r = self.resolve(mod, st.value, _depth + 1)
+                    if r is not None and (r.startswith("ext:") or r in self.functions or r in self.classes) and r not in ("ext:math.inf", "ext:math.nan", "ext:math.pi", "ext:math.e"):
+                        return r + ("." + rest if rest else "") if r.startswith("ext:") or not rest else r
             return "%s:%s" % (mod.name, d)
         import builtins
 
